@@ -51,6 +51,20 @@ def sweep():
             yield dict(kind="manual", params=p)
 
 
+def neighbours():
+    """Two runs in ONE directory whose parameter sets differ by one percent in one probability (both orders): each
+    must leave its own, correctly named file next to the other's, with the other's file untouched."""
+    for field in FIELDS:
+        for k in range(1, 99):
+            if k % 3 and not (inexact(k) or inexact(k + 1)):
+                continue
+            base = dict(seed=2, width=2, length=2, max_reward=4, rb=10, lb=20, tb=30, lt=40, force_down=bool(k % 2))
+            lo, hi = dict(base), dict(base)
+            lo[field], hi[field] = k, k + 1
+            yield dict(kind="neighbours", a=lo, b=hi)
+            yield dict(kind="neighbours", a=hi, b=lo)
+
+
 def longest_names():
     """Seeds with so many digits that the generated file name is 246-255 characters long (255 is the usual limit
     of one path component): the name must still state the whole seed (and two such seeds must not share a file)."""
@@ -110,6 +124,8 @@ def manual_boards(draw):
 def phases(tier):
     return [Phase("whole-percent-sweep", enum=sweep, exhaustive=True,
                   note="k = 1..99 for each probability via main(), prob_to_str and the manual entry point"),
+            Phase("neighbouring-percents-in-one-directory", enum=neighbours,
+                  note="k then k+1 (and k+1 then k) percent written into the same inputs/ directory"),
             Phase("longest-file-names", enum=longest_names, note="seeds of 200+ digits: names of 246-255 characters"),
             Phase("parameter-pairs", strategy=pairs, examples=(250, 15000)),
             Phase("hand-made-boards", strategy=manual_boards, examples=(250, 8000))]
@@ -210,6 +226,32 @@ def check_case(case):
         if bad:
             v.fail("name-misstates-parameter", f"manual entry point wrote {files[0]!r}: " +
                    ", ".join(f"{f} given {a} but named {b}" for f, (a, b) in sorted(bad.items())), sig=sorted(bad)[0])
+    elif case["kind"] == "neighbours":
+        a, b = case["a"], case["b"]
+        v.cls("two_runs_in_one_directory")
+        if any(inexact(x[f]) for x in (a, b) for f in FIELDS):
+            v.cls("k_inexact_in_binary")
+        args_a, kind, e, files = generate(a)
+        na = check_name(v, a, args_a, kind, e, files)
+        if na is None or v.fails:
+            return v
+        first = boards.run_generator_cli(args_a, clean=False)[2][na]            # the bytes of the first file
+        args_b = boards.cli_args(b["seed"], b["width"], b["length"], b["rb"] / 100, b["lb"] / 100, b["tb"] / 100,
+                                 b["lt"] / 100, b["max_reward"], b["force_down"])
+        kind, e, files2 = boards.run_generator_cli(args_b, clean=False)
+        if kind != "ok":
+            v.fail("generator-raises", f"main({' '.join(args_b)}) after main({' '.join(args_a)}) failed: "
+                                       f"{type(e).__name__}: {e}", sig=type(e).__name__)
+            return v
+        new = sorted(set(files2) - {na})
+        if files2.get(na) != first:
+            v.fail("earlier-file-disturbed", f"main({' '.join(args_b)}) in the directory that held {na!r} changed or "
+                                             f"removed that file; directory now {sorted(files2)}")
+        elif len(new) != 1:
+            v.fail("file-count", f"main({' '.join(args_b)}) after main({' '.join(args_a)}) left {sorted(files2)}")
+        else:
+            check_name(v, b, args_b, "ok", None, new)
+        boards.clean_scratch()
     else:
         a, b = case["a"], case["b"]
         v.cls("pair", "pair_differs" if a != b else "pair_equal")
